@@ -4,9 +4,23 @@ from __future__ import annotations
 import ast
 
 from .. import anchors as A
-from ..model import AnalysisError, FuncInfo, Project, walk_local, call_name, kwarg
+from ..model import AnalysisError, FuncInfo, Project, walk_local, call_name, kwarg, resolved_call_name
+from ..consteval import try_fold
 from ..paths import PState, run_paths, subst_text
 from ..report import Report
+
+
+def _method_folds_to(P: Project, f: FuncInfo, want: str) -> bool:
+    """every create_notification(...) call of `f` names a method that folds (through module constants/enums) to `want`"""
+    calls = [c for c in walk_local(f.node) if isinstance(c, ast.Call) and call_name(c).split(".")[-1] == "create_notification"]
+    if not calls:
+        return False
+    for c in calls:
+        m = kwarg(c, "method") or (c.args[0] if c.args else None)
+        v = try_fold(P, f.module, m) if m is not None else None
+        if v != want and getattr(v, "value", None) != want:
+            return False
+    return True
 
 
 def check(P: Project, R: Report) -> None:
@@ -26,7 +40,9 @@ def check(P: Project, R: Report) -> None:
     notif_sender = P.func(A.MOD_INIT, "send_initialized_notification")
 
     def sup_terms():
-        return {sup, "SUPPORTED_VERSIONS.copy()", "list(SUPPORTED_VERSIONS)", "SUPPORTED_VERSIONS[:]"}
+        base = {sup, "SUPPORTED_VERSIONS.copy()", "list(SUPPORTED_VERSIONS)", "SUPPORTED_VERSIONS[:]"}
+        # membership may be taken in a set/tuple built from the list: the same members
+        return base | {f"{w}({b})" for b in base for w in ("frozenset", "set", "tuple", "list")}
 
     def accepted(st: PState, an) -> str:
         """The acceptance literal on this path, or ''."""
@@ -96,7 +112,11 @@ def check(P: Project, R: Report) -> None:
         # the request carries the proposal
         rs, ws, m, prm = reqs[0][len("request:"):].split("|", 3)
         o = an.origin(prm)
-        ok_req = m in ("'initialize'", "MessageMethod.INITIALIZE") and rs == streams[0] and ws == streams[1] and f"protocolVersion={t}" in o
+        try:
+            m_val = try_fold(P, fi.module, ast.parse(m, mode="eval").body)
+        except SyntaxError:
+            m_val = None
+        ok_req = (m in ("'initialize'", "MessageMethod.INITIALIZE") or m_val == "initialize" or getattr(m_val, "value", None) == "initialize") and rs == streams[0] and ws == streams[1] and f"protocolVersion={t}" in o
         R.ob("R1", "the initialize request carries the proposal on the caller's streams", ok_req, where, f"method {m}, streams ({rs},{ws}), params `{o[:100]}`")
     R.need(proposals, "anchor: no InitializeParams(protocolVersion=…) construction found before the request")
     R.ob("R1", "both proposal branches exist", proposals >= {pref} and len(proposals) >= 2, fi.where, f"proposals seen: {sorted(proposals)}")
@@ -105,6 +125,16 @@ def check(P: Project, R: Report) -> None:
         isinstance(s, ast.Assign) and ast.unparse(s.targets[0]) == sup and ast.unparse(s.value) in sup_terms() - {sup}
         for s in walk_local(fi.node)
     )
+    if not default_ok:
+        # … or, on the paths themselves: where the caller's list is None/empty, the list the proposal is taken from is the library's
+        lib = sup_terms() - {sup}
+        for st, node in list(out.ret) + [(s_, n_) for s_, _t, n_ in out.exc]:
+            props = [e[len("propose:"):] for e in st.events if e.startswith("propose:")]
+            if not props or not ({f"{sup} is None", f"not {sup}"} & set(st.lits)):
+                continue
+            t = props[0]
+            if any(t == f"{l_}[0]" for l_ in lib) or any(f"{pref} in {l_}" in st.lits for l_ in lib):
+                default_ok = True
     R.ob("R1", "default supported list is SUPPORTED_VERSIONS", default_ok, fi.where, "")
     # supported_versions is never rebound to anything else
     for s in walk_local(fi.node):
@@ -143,7 +173,8 @@ def check(P: Project, R: Report) -> None:
     R.ob("R2", "rejection raises VersionMismatchError", "VersionMismatchError" in tags, fi.where, f"raising exits: {sorted(tags)}")
     # the rejecting raise is reached exactly when no acceptance literal holds
     for st, tag, node in out.exc:
-        if tag == "VersionMismatchError" and isinstance(node, ast.Raise) and any(e.startswith("request:") for e in st.events) and not any(l.startswith("hasattr(") for l in st.lits):
+        in_handler = any(node is x for t_ in walk_local(fi.node) if isinstance(t_, ast.Try) for h_ in t_.handlers for b_ in h_.body for x in walk_local(b_))
+        if tag == "VersionMismatchError" and isinstance(node, ast.Raise) and any(e.startswith("request:") for e in st.events) and not in_handler and not any(l.startswith("hasattr(") for l in st.lits):
             R.ob("R2", "mismatch is raised only without acceptance", not accepted(st, an), f"{fi.module.rel}:{node.lineno}", "")
     # not in a loop
     for c in walk_local(fi.node):
@@ -161,7 +192,7 @@ def check(P: Project, R: Report) -> None:
     sa, so = run_paths(notif_sender.node, event_of=send_ev)
     for st in list(so.normal) + [s for s, _n in so.ret]:
         sends = [e for e in st.events if e.startswith("send:")]
-        ok = len(sends) == 1 and "create_notification(" in sends[0] and "'notifications/initialized'" in sends[0]
+        ok = len(sends) == 1 and "create_notification(" in sends[0] and ("'notifications/initialized'" in sends[0] or _method_folds_to(P, notif_sender, "notifications/initialized"))
         R.ob("R3", "sender writes exactly one notifications/initialized", ok, notif_sender.where, f"writes {sends}")
     swallow = [st for st in list(so.normal) + [s for s, _n in so.ret] if not any(e.startswith("send:") for e in st.events)]
     R.ob("R3", "sender does not swallow a failed write", not swallow, notif_sender.where, "a path completes normally without having written the notification")
@@ -172,15 +203,15 @@ def check(P: Project, R: Report) -> None:
         if f is fi:
             continue
         if any(isinstance(c, ast.Call) and call_name(c) == "send_initialize" for c in walk_local(f.node)) and any(
-            isinstance(c, ast.Call) and call_name(c).endswith(".set_protocol_version") for c in walk_local(f.node)
+            isinstance(c, ast.Call) and resolved_call_name(f.node, c).endswith(".set_protocol_version") for c in walk_local(f.node)
         ):
             trackers.append(f)
     R.need(len(trackers) >= 2, f"anchor: expected the tracking wrapper and MCPClient.initialize, found {[t.fq for t in trackers]}")
     for t in trackers:
         R.fn(t.fq)
 
-        def tev(call, st, an2):
-            if call_name(call).endswith(".set_protocol_version"):
+        def tev(call, st, an2, t=t):
+            if resolved_call_name(t.node, call).endswith(".set_protocol_version"):
                 arg = call.args[0] if call.args else None
                 good = False
                 if isinstance(arg, ast.Attribute) and arg.attr == "protocolVersion" and isinstance(arg.value, ast.Name):
